@@ -162,7 +162,7 @@ pub fn bundled_formula(raw: &RawF, bn: &BooleanNetwork, allow_hybrid: bool) -> F
     let env = FEnv {
         props: &props,
         labels: &[],
-        cfg: FCfg { max_quant_depth: usize::from(allow_hybrid), patterns: allow_hybrid, ..FCfg::PLAIN },
+        cfg: FCfg { max_quant_depth: usize::from(allow_hybrid), patterns: allow_hybrid, long_chains: false, ..FCfg::PLAIN },
         binders: &crate::gen::BINDERS,
     };
     cheap_operators(&crate::gen::resolve_f(raw, &env))
